@@ -154,6 +154,8 @@ class _Subst(ast.NodeTransformer):
             r = self.client._resolve_callee(node.func, None)
             if isinstance(r, ClassRef):
                 tok = self.client.new_token(r.name, node)
+            elif self.client.fresh_of is not None:
+                tok = self.client.fresh_token(node, self.state)
         node = self.generic_visit(node)
         if tok is not None:
             return ast.Name(id=tok, ctx=ast.Load())
@@ -187,6 +189,34 @@ class _Subst(ast.NodeTransformer):
             self.state = saved
 
 
+class _Simplify(ast.NodeTransformer):
+    """Projections of literal containers: ``(a, b)[1]`` -> ``b``, ``{'k': v}['k']`` -> ``v`` (a helper that returns a
+    tuple / builds a keyword dict does not hide the values it passes on)."""
+
+    def visit_Subscript(self, node):
+        node = self.generic_visit(node)
+        v, sl = node.value, node.slice
+        # x[a:b][i] -> x[a + i]
+        if isinstance(sl, ast.Constant) and isinstance(sl.value, int) and not isinstance(sl.value, bool) and sl.value >= 0 \
+                and isinstance(v, ast.Subscript) and isinstance(v.slice, ast.Slice) and v.slice.step is None \
+                and not isinstance(node.ctx, ast.Store):
+            lo = v.slice.lower
+            lo_v = 0 if lo is None else lo.value if isinstance(lo, ast.Constant) and isinstance(lo.value, int) and lo.value >= 0 else None
+            hi = v.slice.upper
+            hi_v = None if hi is None else hi.value if isinstance(hi, ast.Constant) and isinstance(hi.value, int) and hi.value >= 0 else -1
+            if lo_v is not None and hi_v != -1 and (hi_v is None or lo_v + sl.value < hi_v):
+                return ast.Subscript(value=v.value, slice=ast.Constant(value=lo_v + sl.value), ctx=ast.Load())
+        if isinstance(sl, ast.Constant) and not isinstance(node.ctx, ast.Store):
+            if isinstance(v, (ast.Tuple, ast.List)) and isinstance(sl.value, int) and not isinstance(sl.value, bool) \
+                    and -len(v.elts) <= sl.value < len(v.elts) and not any(isinstance(x, ast.Starred) for x in v.elts):
+                return v.elts[sl.value]
+            if isinstance(v, ast.Dict) and all(isinstance(k, ast.Constant) for k in v.keys):
+                for k, val in zip(v.keys, v.values):
+                    if k.value == sl.value and type(k.value) is type(sl.value):
+                        return val
+        return node
+
+
 class SymClient(Client):
     """Provenance client.  Sub-class or configure with callbacks:
 
@@ -198,9 +228,14 @@ class SymClient(Client):
                  hierarchy: Optional[ExcHierarchy] = None, raises_of: Optional[Callable] = None,
                  depth: int = 0, branch_hook: Optional[Callable] = None,
                  store_event: Optional[Callable] = None, field_event: Optional[Callable] = None,
-                 bool_returns: bool = False):
+                 bool_returns: bool = False, fresh_of: Optional[Callable] = None, inline_generators: bool = False):
         self.repo = repo
         self.bool_returns = bool_returns
+        # fresh_of(call, callee_text, client, state) -> prefix or None: calls whose result differs each time they are
+        # evaluated (stream reads) denote a token named after the call site instead of the call text
+        self.fresh_of = fresh_of
+        self.inline_generators = inline_generators
+        self.loops: List[Tuple['SymClient', ast.AST, SymState]] = []   # (client, loop node, entry state), shared with sub-clients
         # set while a helper is inlined: its statements are attributed to the line of the call in the analysed function
         self.site_line: Optional[int] = None
         self.f = f
@@ -237,9 +272,22 @@ class SymClient(Client):
         for n in ast.walk(e1):
             if isinstance(n, ast.Call):
                 n._pnd_orig = True
-        e2 = _Subst(self, s).visit(e1)
+        e2 = _Simplify().visit(_Subst(self, s).visit(e1))
         ast.fix_missing_locations(e2)
         return ast.unparse(e2)
+
+    def fresh_token(self, call: ast.Call, s: SymState) -> Optional[str]:
+        if self.fresh_of is None:
+            return None
+        saved, self.fresh_of = self.fresh_of, None      # the callee text itself is computed without tokens for this call
+        try:
+            callee = self.term(call.func, s, heap_ext=False)
+        finally:
+            self.fresh_of = saved
+        pref = self.fresh_of(call, callee, self, s)
+        if not pref:
+            return None
+        return '%s_L%d_%d' % (pref, self.site_line or getattr(call, 'lineno', 0), getattr(call, 'col_offset', 0))
 
     def new_token(self, cname: str, node: ast.AST) -> str:
         return 'NEW_%s_L%d' % (cname, self.site_line or getattr(node, 'lineno', 0))
@@ -295,6 +343,14 @@ class SymClient(Client):
                         return r0
                 except (NotConst, SyntaxError):
                     pass
+        if isinstance(fn, ast.Name):
+            # a function defined inside the analysed one (or inside an enclosing one)
+            f0 = self.f
+            while f0 is not None:
+                if fn.id in f0.nested:
+                    n0 = f0.nested[fn.id]
+                    return FuncRef(n0.module.name, n0.qualname)
+                f0 = f0.parent
         ch = attr_chain(fn)
         if ch and len(ch) == 2 and ch[0] in ('self', 'cls') and self.cls is not None:
             m = self.cls.find_method(ch[1])
@@ -313,7 +369,7 @@ class SymClient(Client):
         if kind:
             args = tuple(self.value_term(a, s.with_ret(None)) if not isinstance(a, ast.Starred) else '*' + self.term(a.value, s)
                          for a in call.args)
-            kwargs = tuple((k.arg or '**', self.value_term(k.value, s.with_ret(None))) for k in call.keywords)
+            kwargs = tuple(self._kwargs(call, s.with_ret(None)))
             # a package function called with keywords: canonical positional order (``f(x, last=3, normal=1)``
             # is ``f(x, 1, 3)``), defaults filled in up to the last parameter given
             r0 = self._resolve_callee(call.func, s)
@@ -347,6 +403,9 @@ class SymClient(Client):
             for a in list(args) + [v for _, v in kwargs]:
                 if is_token(a):
                     snap.append((a, s.fields_of(a)))
+            ft = self.fresh_token(call, s)
+            if ft is not None:
+                kwargs = tuple(kwargs) + (('=', ft),)     # the token this call's result is known by
             s = self.emit(s, Event(kind, callee_txt, args, kwargs, tuple(snap), self.site_line or call.lineno, s.conds, self.f.key))
         r = self._resolve_callee(call.func, s)
         if isinstance(r, ClassRef):
@@ -355,11 +414,19 @@ class SymClient(Client):
             fi = self.repo.func(r.module, r.qualname)
             if self.inline(fi) and self.depth < 6 and not _is_generator(fi.node):
                 return self._inline(fi, call, s)
+            if self.inline_generators and self.depth < 6 and _is_generator(fi.node) and \
+                    (fi.parent is not None or self.inline(fi) or (fi.cls is not None and self.cls is not None and fi.cls.key in
+                                                                  [c_.key for c_ in self.cls.mro()])):
+                # the generator's body is run at the call: what it yields is recorded as events, in order
+                outs = self._inline(fi, call, s)
+                return [o_.with_ret(None) for o_ in outs]
         return [s]
 
     def _inline(self, fi: FuncInfo, call: ast.Call, s: SymState) -> List[SymState]:
         params = fi.params
         env = {}
+        if fi.parent is not None:
+            env.update(dict(s.env))     # closure: a nested function sees the enclosing locals
         if fi.kind in ('method', 'classmethod') and params and isinstance(call.func, ast.Attribute):
             recv = self.term(call.func.value, s, heap_ext=False)
             if recv.startswith('super('):
@@ -379,13 +446,27 @@ class SymClient(Client):
             if p not in env:
                 env[p] = ast.unparse(d)
         sub = SymClient(self.repo, fi, self.event_of, self._user_inline, self.hierarchy, self.raises_of,
-                        self.depth + 1, self.branch_hook, self.store_event, self.field_event, self.bool_returns)
+                        self.depth + 1, self.branch_hook, self.store_event, self.field_event, self.bool_returns,
+                        self.fresh_of, self.inline_generators)
+        sub.loops = self.loops
         sub.log = self.log
+        sub.gen_token = self.fresh_token(call, s) if _is_generator(fi.node) else getattr(self, 'gen_token', None)
         sub.site_line = self.site_line if self.site_line else (call.lineno if self.repo.is_helper(fi) else None)
         init = SymState(frozenset(env.items()), s.heap, s.conds, s.trail)
         o = sub.run(init)
         outs = []
         for s2, _ in o.ret:
+            # a return from inside a loop leaves that loop
+            opened = 0
+            for e_ in s2.trail[len(s.trail):]:
+                if e_.kind == 'loop':
+                    opened += 1
+                elif e_.kind == 'loopexit':
+                    opened -= 1
+            tr2 = s2.trail
+            for _k in range(max(opened, 0)):
+                tr2 = tr2 + (Event('loopexit', 'return', (), (), (), self.site_line or call.lineno, s2.conds, fi.key),)
+            s2 = SymState(s2.env, s2.heap, s2.conds, tr2, s2.ret)
             outs.append(SymState(s.env, s2.heap, s2.conds, s2.trail, s2.ret or 'None'))
         for s2 in o.fall:
             outs.append(SymState(s.env, s2.heap, s2.conds, s2.trail, 'None'))
@@ -425,6 +506,9 @@ class SymClient(Client):
             r = self._resolve_callee(e.func, s)
             if isinstance(r, ClassRef):
                 return self.new_token(r.name, e)
+            ft = self.fresh_token(e, s)
+            if ft is not None:
+                return ft
             if s.ret is not None and isinstance(r, FuncRef):
                 fi = self.repo.func(r.module, r.qualname)
                 if self.inline(fi) and not _is_generator(fi.node):
@@ -444,6 +528,11 @@ class SymClient(Client):
             outs = []
             for s1 in self._eval(st.value, s):
                 v = self.value_term(st.value, s1)
+                if self.fresh_of is not None and ((isinstance(st.value, ast.List) and not st.value.elts) or
+                                                  (isinstance(st.value, ast.Call) and isinstance(st.value.func, ast.Name)
+                                                   and st.value.func.id == 'list' and not st.value.args)):
+                    # an accumulator: the list object is known by its creation site
+                    v = 'LIST_L%d_%d' % (self.site_line or st.value.lineno, st.value.col_offset)
                 s1 = self._alloc(st.value, v, s1).with_ret(None)
                 tgts = st.targets if isinstance(st, ast.Assign) else [st.target]
                 for t in tgts:
@@ -486,10 +575,28 @@ class SymClient(Client):
         for i, a in enumerate(value.args):
             name = params[i] if i < len(params) else 'arg%d' % i
             s = s.set_field(term, '@' + name, self.value_term(a, s) if not isinstance(a, ast.Starred) else self.term(a.value, s))
-        for kw in value.keywords:
-            if kw.arg:
-                s = s.set_field(term, '@' + kw.arg, self.value_term(kw.value, s))
+        for k_, v_ in self._kwargs(value, s):
+            if k_ != '**':
+                s = s.set_field(term, '@' + k_, v_)
         return s
+
+    def _kwargs(self, call: ast.Call, s: SymState):
+        """(name, term) of the keyword arguments; ``**d`` with ``d`` a dict literal term is expanded."""
+        out = []
+        for kw in call.keywords:
+            v = self.value_term(kw.value, s)
+            if kw.arg:
+                out.append((kw.arg, v))
+                continue
+            try:
+                de = ast.parse(v, mode='eval').body
+            except SyntaxError:
+                de = None
+            if isinstance(de, ast.Dict) and de.keys and all(isinstance(k, ast.Constant) and isinstance(k.value, str) for k in de.keys):
+                out.extend((k.value, ast.unparse(x)) for k, x in zip(de.keys, de.values))
+            else:
+                out.append(('**', v))
+        return out
 
     def assign(self, t: ast.expr, value: Optional[ast.expr], term: str, s: SymState) -> SymState:
         if isinstance(t, ast.Name):
@@ -498,11 +605,23 @@ class SymClient(Client):
             velts = None
             if value is not None and isinstance(value, (ast.Tuple, ast.List)) and len(value.elts) == len(t.elts):
                 velts = value.elts
+            telts = None
+            if velts is None:
+                # the value's *term* is a tuple literal (a helper that returns ``a, b``)
+                try:
+                    te = ast.parse(term, mode='eval').body
+                except SyntaxError:
+                    te = None
+                if isinstance(te, (ast.Tuple, ast.List)) and len(te.elts) == len(t.elts) \
+                        and not any(isinstance(x, ast.Starred) for x in te.elts + t.elts):
+                    telts = [ast.unparse(x) for x in te.elts]
             for i, tt in enumerate(t.elts):
                 if velts is not None:
                     s = self.assign(tt, velts[i], self.value_term(velts[i], s), s)
+                elif telts is not None:
+                    s = self.assign(tt, None, telts[i], s)
                 else:
-                    s = self.assign(tt, None, '%s[%d]' % (_paren(term), i), s)
+                    s = self.assign(tt, None, simplify_term('%s[%d]' % (_paren(term), i)), s)
             return s
         if isinstance(t, ast.Attribute):
             base = self.term(t.value, s)
@@ -517,6 +636,25 @@ class SymClient(Client):
         if isinstance(t, ast.Subscript):
             base = self.term(t.value, s)
             key = self.term(t.slice, s)
+            # d['k'] = v on a local that holds a dict literal: the local now holds the extended literal
+            if isinstance(t.value, ast.Name) and s.get(t.value.id) is not None:
+                try:
+                    de, ke = ast.parse(base, mode='eval').body, ast.parse(key, mode='eval').body
+                    ve = ast.parse(term, mode='eval').body
+                except SyntaxError:
+                    de = ke = ve = None
+                if isinstance(de, ast.Dict) and isinstance(ke, ast.Constant) and all(isinstance(k, ast.Constant) for k in de.keys):
+                    keys, vals = list(de.keys), list(de.values)
+                    for i_, k_ in enumerate(keys):
+                        if k_.value == ke.value and type(k_.value) is type(ke.value):
+                            vals[i_] = ve
+                            break
+                    else:
+                        keys.append(ke)
+                        vals.append(ve)
+                    nd = ast.Dict(keys=keys, values=vals)
+                    ast.fix_missing_locations(nd)
+                    return s.set(t.value.id, ast.unparse(nd))
             if self.store_event is not None and self.store_event(base + '[]'):
                 s = self.emit(s, Event('store', base + '[]', (key, term), (), (), self.site_line or t.lineno, s.conds, self.f.key))
             return s.set_field(('EXT:' + base) if not is_token(base) else base, '[%s]' % key, term)
@@ -573,7 +711,12 @@ class SymClient(Client):
     def loop_enter(self, st, s: SymState):
         mark = Event('loop', 'L%d' % st.lineno, (str(len(s.conds)),), (), (), st.lineno, s.conds, self.f.key)
         self.log.append((mark, s))
+        self.loops.append((self, st, s))
         return [SymState(s.env, s.heap, s.conds, s.trail + (mark,), s.ret)]
+
+    def loop_leave(self, st, s: SymState):
+        ex = Event('loopexit', 'L%d' % st.lineno, (), (), (), st.lineno, s.conds, self.f.key)
+        return [SymState(s.env, s.heap, s.conds, s.trail + (ex,), s.ret)]
 
     def back_edge(self, st, s: SymState):
         """Widening: the events and path conditions of completed iterations are
@@ -646,6 +789,16 @@ def _yields_in(e: ast.AST) -> List[ast.Yield]:
             out.append(n)
     walk(e)
     return out
+
+
+def simplify_term(t: str) -> str:
+    try:
+        e = ast.parse(t, mode='eval').body
+    except SyntaxError:
+        return t
+    e2 = _Simplify().visit(e)
+    ast.fix_missing_locations(e2)
+    return ast.unparse(e2)
 
 
 def _paren(t: str) -> str:
